@@ -235,5 +235,32 @@ func jobC14(c *rt.Ctx) {
 		if !bytes.Equal(k3, snap) {
 			fail("NewKeyFromSeed result aliases the seed argument")
 		}
+		// seed handed over as a sub-slice with spare capacity (e.g. the front of a larger buffer)
+		big := make([]byte, 128)
+		for j := range big {
+			big[j] = 0xEE
+		}
+		copy(big[16:], seed)
+		before := append([]byte{}, big...)
+		k4 := NewKeyFromSeed(big[16:48])
+		if !bytes.Equal(big, before) {
+			fail("NewKeyFromSeed wrote into the caller's buffer beyond the seed")
+		}
+		for j := range big {
+			big[j] = 0
+		}
+		if !bytes.Equal(k4, snap) {
+			fail("NewKeyFromSeed result shares memory with the caller's seed buffer")
+		}
+		pub5, priv5, err5 := GenerateKey(bytes.NewReader(append(append([]byte{}, seed...), 1, 2, 3)))
+		if err5 != nil || !bytes.Equal(priv5, snap) || !bytes.Equal(pub5, snap[32:]) {
+			fail("GenerateKey(bytes.Reader over the seed) differs from NewKeyFromSeed")
+		}
+		if len(pub5) == 32 {
+			pub5[0] ^= 0xff
+			if !bytes.Equal(priv5, snap) {
+				fail("GenerateKey's public key aliases its private key")
+			}
+		}
 	}
 }
